@@ -169,7 +169,7 @@ def operand_cases():
         out.append(("int", v, v))
     for v, r in ((0.0, 0), (-0.0, 0), (0.5, 1), (1.0, 2), (-2.5, -5), (1e10, 3), (2.0, 4)):
         out.append(("float", v, r))
-    for v, r in (("", 0), ("A", 1), ("OFF", 0), ("ON", 1), ("b", 2)):
+    for v, r in (("", 0), ("A", 1), ("OFF", 0), ("ON", 1), ("b", 2), ("AB  ", 3), (" A", 4)):
         out.append(("str", v, r))
     for v, r in ((False, 0), (True, 1), (True, 2)):
         out.append(("bool", v, r))
@@ -181,7 +181,7 @@ def literals_for(x):
         return [str(int(x)), str(int(x) + 1), str(int(x) - 1), "0"]
     if isinstance(x, float):
         return [repr(x), repr(x + 0.5), "0", "0.0", "-1", "1e10"]
-    return [x or "B", "A", "ON", "a"]
+    return [x or "B", "A", "ON", "a", x + "  ", " " + x, "AB  "]
 
 
 def run(ctx):
@@ -276,6 +276,7 @@ def run(ctx):
     ctx.exhaustive_space(f"AND/OR tree shapes with <= 4 leaves ({len(shapes)} shapes) x 32 assignments", 1)
 
     # ---- 4. comparison lists (conjunction) and lookups (first match) --------------------------------------------
+    absent = ir.Comparison("NOT_IN_THIS_PACKET", "1")     # a parameter other packet kinds carry; only reachable after a false comparison
     comps = [ir.Comparison("A", "1"), ir.Comparison("A", "0", "!="), ir.Comparison("B", "0.5", ">=", True),
              ir.Comparison("B", "1", "==", False), ir.Comparison("C", "A"), ir.Comparison("A", "2", "<", False),
              ir.Comparison("C", "", "!=")]
@@ -290,7 +291,7 @@ def run(ctx):
                 pkt, env = packet_of(asg)
                 route = routes[ai % 2]
                 judge(ctx, "list", lst, libs[route], pkt, env, route, ("len", n))
-    lookups(ctx, comps, assigns, rng)
+    lookups(ctx, comps, assigns, rng, absent)
 
     # ---- 5. seeded random larger trees ------------------------------------------------------------------------------
     for i in range(ctx.size(3000, 2_000_000) // ctx.nshards):
@@ -303,7 +304,7 @@ def run(ctx):
             judge(ctx, "boolexpr", bx, lib, pkt, env, route, ("random", min(count_leaves_ir(tree), 12)), shape="random")
 
 
-def lookups(ctx, comps, assigns, rng):
+def lookups(ctx, comps, assigns, rng, absent):
     """first-match semantics observed at the PUBLIC boundary: a binary / string parameter type whose length is a lookup
     list is parsed from a packet holding 32 bits; the number of bits consumed (cursor) and the size of the value tell
     which entry was used. (No private method of the library is called.)"""
@@ -317,7 +318,7 @@ def lookups(ctx, comps, assigns, rng):
             if not ctx.mine(n):
                 continue
             # values 0, 8, 16, ...: a looked-up value of 0 is a value, not "no match"
-            lk = ir.Lookup(tuple(((comps[i],), 8 * ((j + n) % 3)) for j, i in enumerate(combo)))
+            lk = ir.Lookup(tuple(((comps[i],) if (i + j + n) % 4 else (comps[i], absent), 8 * ((j + n) % 3)) for j, i in enumerate(combo)))
             for route in ("ctor", "xml"):
                 if route == "ctor":
                     benc = build.encoding(ir.BinEnc(lk))
